@@ -249,6 +249,7 @@ ld check_multipliers(const lud_t *d, ld u, const char *key)
 ld check_residual(const ref_t *G, int_t n, int trans, const elem_t *X, int_t ldx, const elem_t *B0, int_t ldb,
                   int_t nrhs, const ld *W, const int_t *perm_r, const int_t *perm_c, ld gk, const char *key)
 {
+    ld wmax = 0; if (W) for (size_t q = 0; q < (size_t)n * n; ++q) if (W[q] > wmax) wmax = W[q];
     ld worst = 0; long nv = 0;
     ref_t *r = xmalloc((n + 1) * sizeof(ref_t));
     ld *bnd = xmalloc((n + 1) * sizeof(ld)), *aax = xmalloc((n + 1) * sizeof(ld));
@@ -270,7 +271,9 @@ ld check_residual(const ref_t *G, int_t n, int trans, const elem_t *X, int_t ldx
         }
         for (int_t i = 0; i < n; ++i) {
             ld e = rabs(r[i]);
-            ld bound = gk * bnd[i] + LD_EPS * (n + 2) * aax[i];
+            /* + products and quotients that underflowed in the working precision during the two triangular solves (each one an
+               absolute error of at most HX_UFL, carried through rows of |L||U|): only matters for data near the denormal range */
+            ld bound = gk * bnd[i] + LD_EPS * (n + 2) * aax[i] + 16.0L * (ld)(n + 1) * (ld)(n + 1) * HX_UFL * (1.0L + wmax);
             ld ratio = e == 0 ? 0 : (bound == 0 ? 1e300L : e / bound);
             if (!(e == e)) ratio = 1e300L;     /* NaN */
             if (ratio > worst) worst = ratio;
